@@ -6,6 +6,7 @@ CONSTANTS
   MapKeys = {}
   Nest = TRUE
   MaxDel = 1
+  Merge = FALSE
   Dups = FALSE
 SPECIFICATION Spec
 INVARIANTS InvOnce InvPlaced InvBetween InvDepClosed InvNothingLost InvPending InvConverge InvPairOrder InvClosed PrintSchedules
